@@ -573,7 +573,7 @@ static int run_c10(uint64_t seed, long from, long to, const char * listfile, lon
     bool first = true; for (auto & kv : kinds) { o << (first ? "" : ",") << "\"" << kv.first << "\":" << kv.second; first = false; }
     o << "},\"samples\":[" << hc::jstr(sample) << "]}";
     hc::stat(o.str());
-    fflush(stdout); _exit(0);      // the leak monitor above has had the last word; LeakSanitizer's own pass at exit would repeat it
+    fflush(stdout); hc::cov_flush(); _exit(0);      // the leak monitor above has had the last word; LeakSanitizer's own pass at exit would repeat it
 }
 
 // ---------------------------------------------------------------------------------------------------------------- C14
